@@ -449,8 +449,8 @@ def run(tier, seed, rep):
                         continue
                     for t in TEMPLATES:
                         for theme in THEMES:
-                            if theme == 'Text' and t not in ('default', 'idtitle'):
-                                continue
+                            if theme == 'Text' and (t not in ('default', 'idtitle') or variant == 'twins'):
+                                continue        # (twins: the footnote oracle of that variant does not apply, see the open finding)
                             if len(units) == 3 and not (theme == 'XHTML' or (theme == 'HTML5' and t == 'default')):
                                 continue        # 3-unit forests: XHTML for all templates, HTML5 for the default one
                             bads = [None, ' '] if (t in ('idtitle', 'default') and len(units) <= 2 and theme != 'Text') else [None]
